@@ -180,9 +180,9 @@ broadcast use axiom_terminate_to_nix;
         forall|f: int| final(env).raised@.contains(f) ==> old(env).raised@.contains(f) || f == done.id
             || (reaped_in($ENVS, cs_view(&*old(command_state))) && all_ids(old(on_end)@).contains(f)), // OBL:C09.control_handler.no_early_resolution
         // ---- C09/C06: the documented state machine, one clause per control ----
-        control is Start ==> c09_start($OV, $FV, $ENVS, command) && r is Normally, // OBL:C09.control.start
+        control is Start ==> c09_start($OV, $FV, $ENVS, command) && r is Normally, // OBL:C09+C18.control.start
         control is Stop ==> c09_stop($OV, $FV, $ENVS) && r is Normally, // OBL:C09.control.stop
-        control is TryRestart ==> c09_try_restart($OV, $FV, $ENVS, command) && r is Normally, // OBL:C09.control.try_restart
+        control is TryRestart ==> c09_try_restart($OV, $FV, $ENVS, command) && r is Normally, // OBL:C09+C18.control.try_restart
         control is ContinueTryGracefulRestart ==> c09_continue($OV, $FV, $ENVS, command) && r is Normally, // OBL:C06+C09.control.continue_try_graceful_restart
         // restart exactly once: once the replacement has been started for a graceful try-restart, no restart request stays pending
         control is ContinueTryGracefulRestart ==> $FV.on_end_restart is None, // OBL:C06.control.continue_clears_pending_restart
@@ -192,9 +192,9 @@ broadcast use axiom_terminate_to_nix;
         control is Delete ==> n_of($ENVS) == 0 && unchanged($OV, $FV) && r is Break, // OBL:C08+C09.control.delete
         control is NextEnding ==> c09_next_ending($OV, $FV, $ENVS, done.id) && (r is Skip <==> cs_view(&*old(command_state)) is Running), // OBL:C09.control.next_ending
         control is SyncFunc || control is AsyncFunc ==> c09_func($OV, $FV, $ENVS) && r is Normally, // OBL:C09.control.func
-        control is SetSyncSpawnHook ==> c09_set_hooks($OV, $FV, $ENVS, $OV.eh, SpawnHook::Sync(control->SetSyncSpawnHook_0)) && r is Normally, // OBL:C09.control.set_sync_spawn_hook
-        control is SetAsyncSpawnHook ==> c09_set_hooks($OV, $FV, $ENVS, $OV.eh, SpawnHook::Async(control->SetAsyncSpawnHook_0)) && r is Normally, // OBL:C09.control.set_async_spawn_hook
-        control is UnsetSpawnHook ==> c09_set_hooks($OV, $FV, $ENVS, $OV.eh, SpawnHook::None) && r is Normally, // OBL:C09.control.unset_spawn_hook
+        control is SetSyncSpawnHook ==> c09_set_hooks($OV, $FV, $ENVS, $OV.eh, SpawnHook::Sync(control->SetSyncSpawnHook_0)) && r is Normally, // OBL:C09+C18.control.set_sync_spawn_hook
+        control is SetAsyncSpawnHook ==> c09_set_hooks($OV, $FV, $ENVS, $OV.eh, SpawnHook::Async(control->SetAsyncSpawnHook_0)) && r is Normally, // OBL:C09+C18.control.set_async_spawn_hook
+        control is UnsetSpawnHook ==> c09_set_hooks($OV, $FV, $ENVS, $OV.eh, SpawnHook::None) && r is Normally, // OBL:C09+C18.control.unset_spawn_hook
         control is SetSyncErrorHandler ==> c09_set_hooks($OV, $FV, $ENVS, ErrorHandler::Sync(control->SetSyncErrorHandler_0), $OV.sh) && r is Normally, // OBL:C09.control.set_sync_error_handler
         control is SetAsyncErrorHandler ==> c09_set_hooks($OV, $FV, $ENVS, ErrorHandler::Async(control->SetAsyncErrorHandler_0), $OV.sh) && r is Normally, // OBL:C09.control.set_async_error_handler
         control is UnsetErrorHandler ==> c09_set_hooks($OV, $FV, $ENVS, ErrorHandler::None, $OV.sh) && r is Normally, // OBL:C09.control.unset_error_handler
